@@ -106,7 +106,10 @@ Apply(ds, c) ==
 \* hist (the calls so far) and path (response and state after each call) are history variables hidden by VIEW
 VARIABLES ds, resp, hist, path
 vars == <<ds, resp, hist, path>>
-Shown(d) == [d EXCEPT !.owners = [o \in Owners |-> o \in d.owners]]
+\* durable: what a NEW connection to the same database file reads equals what the serving connection reads, i.e. no
+\* method returns with a write still pending on the shared connection (a later rollback on behalf of another call would
+\* discard it, a crash would lose it).  The model has no pending state at all, so the flag is constantly TRUE.
+Shown(d) == [owners |-> [o \in Owners |-> o \in d.owners], study |-> d.study, trial |-> d.trial, sop |-> d.sop, es |-> d.es, durable |-> TRUE]
 Init == ds = InitDs /\ resp = [err |-> None, val |-> None] /\ hist = <<>> /\ path = <<>>
 Do(call) == LET r == Apply(ds, call) IN /\ ds' = r.ds /\ resp' = r.resp /\ hist' = Append(hist, call)
                                         /\ path' = Append(path, [resp |-> r.resp, st |-> Shown(r.ds)])
